@@ -544,8 +544,7 @@ class World(object):
                     ev['func'] = nm_
                     la = getattr(self, '_legacy_args', [])
                     if k_ < len(la) and la[k_].get('task_ex_id'):
-                        ev['key'] = 'th_r_t_s-%s' % la[k_]['task_ex_id'] if nm_ == '_refresh_task_state' else ''
-                        ev['args'] = {}
+                        ev['args'] = {'task_ex_id': la[k_]['task_ex_id']}
                 self.lpoll.step()
                 if self.lpoll.error is not None:
                     ev['exc'] = type(self.lpoll.error).__name__
@@ -647,12 +646,18 @@ class World(object):
                 job = db_api.get_scheduled_job(jid)
             ev['func'] = job.func_name.split('.')[-1]
             ev['key'] = job.key
+            fa = dict(getattr(job, 'func_args', None) or {})
+            self._job_args = getattr(self, '_job_args', {})
+            self._job_args[jid] = fa
             g = Gate('job-%s' % jid, (lambda: self.sched._process_memory_job(job)))
             self.jobs[jid] = dict(gate=g, func=ev['func'], key=job.key)
             g.start()          # parks at capture
         j = self.jobs[jid]
         ev['func'] = j['func']
         ev['key'] = j['key']
+        fa = getattr(self, '_job_args', {}).get(jid) or {}
+        if fa.get('task_ex_id'):
+            ev['args'] = {'task_ex_id': fa['task_ex_id']}
         g = j['gate']
         if g.done or g.at is None or g.at[0] != phase:
             raise RuntimeError('job %s is not at phase %s' % (jid, phase))
